@@ -254,7 +254,7 @@ impl<'a, R: ReadValue> LimitReader<'a, R> {
     /// Create a reader which reads up to `len` bytes of `inner`.
     pub fn new(inner: &'a mut R, len: u64) -> Self {
         Self {
-            end: inner.position() + len,
+            end: inner.position().saturating_add(len),
             inner,
         }
     }
@@ -262,16 +262,15 @@ impl<'a, R: ReadValue> LimitReader<'a, R> {
     /// Create a sub-reader which reads up to `len` bytes of this reader.
     pub fn sub_limit(&mut self, len: u64) -> LimitReader<'_, R> {
         LimitReader {
-            end: self.inner.position() + len,
+            end: self.inner.position().saturating_add(len),
             inner: self.inner,
         }
     }
 
     fn check_has_bytes(&self, len: usize) -> Result<(), ProtobufError> {
-        if self.position() + (len as u64) <= self.end {
-            Ok(())
-        } else {
-            Err(ProtobufError::new(ErrorKind::Eof))
+        match self.position().checked_add(len as u64) {
+            Some(end) if end <= self.end => Ok(()),
+            _ => Err(ProtobufError::new(ErrorKind::Eof)),
         }
     }
 }
